@@ -34,6 +34,47 @@ fn cpu_budget_ms(input_bytes: usize) -> u64 {
     CPU_BASE_MS + (input_bytes as u64) / 250
 }
 
+/// Config variant of the case being prepared / loaded (request kind 15)
+static CUR_CFG: std::sync::atomic::AtomicI64 = std::sync::atomic::AtomicI64::new(0);
+
+pub const NCFG: i64 = 9;
+
+fn apply_cfg(c: Config, k: i64) -> Config {
+    let indices_off = |c: Config| {
+        c.with_textrelationmap(false)
+            .with_resource_annotation_map(false)
+            .with_dataset_annotation_map(false)
+            .with_key_annotation_metamap(false)
+            .with_data_annotation_metamap(false)
+            .with_annotation_annotation_map(false)
+    };
+    match k {
+        1 => c.with_milestone_interval(0),
+        2 => c.with_milestone_interval(1),
+        3 => c.with_milestone_interval(2),
+        4 => c.with_shrink_to_fit(false),
+        5 => c.with_generate_ids(true),
+        6 => indices_off(c),
+        7 => c.with_use_include(false),
+        8 => indices_off(c.with_milestone_interval(0).with_shrink_to_fit(false).with_generate_ids(true).with_use_include(false)),
+        _ => c,
+    }
+}
+
+/// the configuration documents are loaded with (the default one unless the request says otherwise)
+fn cfgd() -> Config {
+    apply_cfg(Config::default(), CUR_CFG.load(std::sync::atomic::Ordering::SeqCst))
+}
+
+/// the request itself, or the one wrapped in (15 cfg request)
+fn inner(req: &Sx) -> &Sx {
+    if req.nth(0).int() == 15 {
+        req.nth(2)
+    } else {
+        req
+    }
+}
+
 fn workdir() -> String {
     let base = std::env::var("VERIF_WORK").unwrap_or_else(|_| "/verif/.cache/work".to_string());
     format!("{}/c19", base)
@@ -423,12 +464,12 @@ fn prepare(req: &Sx, dir: &str, cache: &mut Cache) -> Case {
         1 => {
             let doc = doc_annotations(req);
             let n = doc.len();
-            Case { load: Load::JsonStr(doc, Config::default().with_strip_temp_ids(req.nth(1).int() != 0)), input_bytes: n, report: report_annotations, probe: true, note: "" }
+            Case { load: Load::JsonStr(doc, cfgd().with_strip_temp_ids(req.nth(1).int() != 0)), input_bytes: n, report: report_annotations, probe: true, note: "" }
         }
         2 => {
             let doc = doc_data(req);
             let n = doc.len();
-            Case { load: Load::JsonStr(doc, Config::default().with_strip_temp_ids(req.nth(1).int() != 0)), input_bytes: n, report: report_data, probe: true, note: "" }
+            Case { load: Load::JsonStr(doc, cfgd().with_strip_temp_ids(req.nth(1).int() != 0)), input_bytes: n, report: report_data, probe: true, note: "" }
         }
         3 => {
             csv_fixture(dir);
@@ -438,7 +479,7 @@ fn prepare(req: &Sx, dir: &str, cache: &mut Cache) -> Case {
             f.push_str(&cols.join(","));
             f.push('\n');
             write_file(dir, "c.annotations.stam.csv", f.as_bytes());
-            Case { load: Load::File(format!("{}/c.store.stam.csv", dir), Config::default()), input_bytes: f.len() + 300, report: report_none, probe: true, note: "" }
+            Case { load: Load::File(format!("{}/c.store.stam.csv", dir), cfgd()), input_bytes: f.len() + 300, report: report_none, probe: true, note: "" }
         }
         4 => {
             // (4 base kind n v): generic mutation of a STAM JSON document
@@ -490,14 +531,14 @@ fn prepare(req: &Sx, dir: &str, cache: &mut Cache) -> Case {
             };
             let len = bytes.len();
             match String::from_utf8(bytes) {
-                Ok(s) if mk < 6 || v % 2 == 0 => Case { load: Load::JsonStr(s, Config::default()), input_bytes: len, report: report_none, probe: true, note },
+                Ok(s) if mk < 6 || v % 2 == 0 => Case { load: Load::JsonStr(s, cfgd()), input_bytes: len, report: report_none, probe: true, note },
                 Ok(s) => {
                     write_file(dir, "m.store.stam.json", s.as_bytes());
-                    Case { load: Load::File(format!("{}/m.store.stam.json", dir), Config::default()), input_bytes: len, report: report_none, probe: true, note }
+                    Case { load: Load::File(format!("{}/m.store.stam.json", dir), cfgd()), input_bytes: len, report: report_none, probe: true, note }
                 }
                 Err(e) => {
                     write_file(dir, "m.store.stam.json", e.as_bytes());
-                    Case { load: Load::File(format!("{}/m.store.stam.json", dir), Config::default()), input_bytes: len, report: report_none, probe: true, note: "flip-nonutf8" }
+                    Case { load: Load::File(format!("{}/m.store.stam.json", dir), cfgd()), input_bytes: len, report: report_none, probe: true, note: "flip-nonutf8" }
                 }
             }
         }
@@ -550,7 +591,7 @@ fn prepare(req: &Sx, dir: &str, cache: &mut Cache) -> Case {
                 total += b.len();
                 write_file(dir, name, &b);
             }
-            Case { load: Load::File(format!("{}/c.store.stam.csv", dir), Config::default()), input_bytes: total, report: report_none, probe: true, note }
+            Case { load: Load::File(format!("{}/c.store.stam.csv", dir), cfgd()), input_bytes: total, report: report_none, probe: true, note }
         }
         6 => {
             // (6 base kind pos): truncation / bit flip of the CBOR file; load-level safety only
@@ -570,7 +611,7 @@ fn prepare(req: &Sx, dir: &str, cache: &mut Cache) -> Case {
                 note = "flip";
             }
             write_file(dir, "m.store.stam.cbor", &b);
-            Case { load: Load::File(format!("{}/m.store.stam.cbor", dir), Config::default()), input_bytes: b.len(), report: report_none, probe: false, note }
+            Case { load: Load::File(format!("{}/m.store.stam.cbor", dir), cfgd()), input_bytes: b.len(), report: report_none, probe: false, note }
         }
         7 => prepare_targeted(req, dir, cache),
         8 => {
@@ -590,7 +631,7 @@ fn prepare(req: &Sx, dir: &str, cache: &mut Cache) -> Case {
             let full = doc_annotations(&as1);
             let second = format!("{{\"@type\":\"AnnotationStore\"{}", &full[PRELUDE.len()..]);
             let n = first.len() + second.len();
-            Case { load: Load::Merge(first, second, Config::default().with_strip_temp_ids(req.nth(1).int() != 0)), input_bytes: n, report: report_annotations, probe: true, note: "merge" }
+            Case { load: Load::Merge(first, second, cfgd().with_strip_temp_ids(req.nth(1).int() != 0)), input_bytes: n, report: report_annotations, probe: true, note: "merge" }
         }
         10 => prepare_files(req, dir),
         11 => prepare_ann_offset(req, dir),
@@ -648,7 +689,7 @@ fn prepare(req: &Sx, dir: &str, cache: &mut Cache) -> Case {
                 4 => "cbor_len_array",
                 _ => "cbor_len_map",
             };
-            Case { load: Load::File(format!("{}/m.store.stam.cbor", dir), Config::default()), input_bytes: nb.len(), report: report_none, probe: false, note }
+            Case { load: Load::File(format!("{}/m.store.stam.cbor", dir), cfgd()), input_bytes: nb.len(), report: report_none, probe: false, note }
         }
         _ => Case { load: Load::None, input_bytes: 0, report: report_none, probe: false, note: "unknown" },
     }
@@ -685,7 +726,7 @@ fn prepare_ann_offset(req: &Sx, dir: &str) -> Case {
         0 => {
             let doc = format!(r#"{},"annotations":[{},{},{}]}}"#, head, a0, a1, a2);
             let n = doc.len();
-            Case { load: Load::JsonStr(doc, Config::default()), input_bytes: n, report: report_none, probe: true, note: "ann_offset_json" }
+            Case { load: Load::JsonStr(doc, cfgd()), input_bytes: n, report: report_none, probe: true, note: "ann_offset_json" }
         }
         1 => {
             let doc = format!(r#"{},"annotations":[{},{}]}}"#, head, a0, a1);
@@ -709,7 +750,7 @@ fn prepare_ann_offset(req: &Sx, dir: &str) -> Case {
             };
             let f = format!("{}A0,D0,s,TextSelector,r,,,0,5,,\n{}\nA2,D1,s,AnnotationSelector,,A1,,{},{},,\n", CSV_HEADER, a1row, b, e);
             write_file(dir, "c.annotations.stam.csv", f.as_bytes());
-            Case { load: Load::File(format!("{}/c.store.stam.csv", dir), Config::default()), input_bytes: f.len() + 300, report: report_none, probe: true, note: "ann_offset_csv" }
+            Case { load: Load::File(format!("{}/c.store.stam.csv", dir), cfgd()), input_bytes: f.len() + 300, report: report_none, probe: true, note: "ann_offset_csv" }
         }
     }
 }
@@ -733,7 +774,7 @@ fn prepare_merge(req: &Sx, dir: &str) -> Case {
     let load = match mode {
         0 => {
             write_file(dir, "main.store.stam.json", store("main", r#""@include":["one.store.stam.json","two.store.stam.json"],"#, &[]).as_bytes());
-            Load::File(format!("{}/main.store.stam.json", dir), Config::default())
+            Load::File(format!("{}/main.store.stam.json", dir), cfgd())
         }
         1 => Load::FileThen(format!("{}/one.store.stam.json", dir), 0, format!("{}/two.store.stam.json", dir)),
         2 => Load::FileThen(format!("{}/one.store.stam.json", dir), 2, two.clone()),
@@ -741,7 +782,7 @@ fn prepare_merge(req: &Sx, dir: &str) -> Case {
         _ => {
             write_file(dir, "both.store.stam.json", store("both", "", &[s1, s2]).as_bytes());
             write_file(dir, "main.store.stam.json", store("main", r#""@include":["both.store.stam.json"],"#, &[]).as_bytes());
-            Load::File(format!("{}/main.store.stam.json", dir), Config::default())
+            Load::File(format!("{}/main.store.stam.json", dir), cfgd())
         }
     };
     Case { load, input_bytes: n, report: report_merged, probe: true, note: "dataset_merge" }
@@ -804,7 +845,7 @@ fn prepare_files(req: &Sx, dir: &str) -> Case {
         }
         _ => write_file(dir, &main, store_with("").as_bytes()),
     }
-    Case { load: Load::File(format!("{}/{}", dir, main), Config::default()), input_bytes: 600, report: report_none, probe: true, note: "files" }
+    Case { load: Load::File(format!("{}/{}", dir, main), cfgd()), input_bytes: 600, report: report_none, probe: true, note: "files" }
 }
 
 const CELLS: [&str; 14] = ["", "nope", ";", ";;", "x;y", "-1", "99", "0", "TextSelector", "DataKeySelector", "CompositeSelector;TextSelector", "!A0", "!\u{c9}1", "AnnotationStore"];
@@ -828,7 +869,7 @@ fn prepare_targeted(req: &Sx, dir: &str, cache: &mut Cache) -> Case {
             nb.extend_from_slice(&[0x82, 0x00, 0x80]); // Null
             nb.extend_from_slice(&b[at[0] + pat.len()..]);
             write_file(dir, "m.store.stam.cbor", &nb);
-            Case { load: Load::File(format!("{}/m.store.stam.cbor", dir), Config::default()), input_bytes: nb.len(), report: report_none, probe: true, note: "cbor_depth" }
+            Case { load: Load::File(format!("{}/m.store.stam.cbor", dir), cfgd()), input_bytes: nb.len(), report: report_none, probe: true, note: "cbor_depth" }
         }
         1 => {
             // the text selection handle of annotation A0's TextSelector replaced by v
@@ -845,7 +886,7 @@ fn prepare_targeted(req: &Sx, dir: &str, cache: &mut Cache) -> Case {
             nb.extend_from_slice(&cbor_uint(v));
             nb.extend_from_slice(&b[at[0] + pat.len()..]);
             write_file(dir, "m.store.stam.cbor", &nb);
-            Case { load: Load::File(format!("{}/m.store.stam.cbor", dir), Config::default()), input_bytes: nb.len(), report: report_none, probe: true, note: "cbor_handle" }
+            Case { load: Load::File(format!("{}/m.store.stam.cbor", dir), cfgd()), input_bytes: nb.len(), report: report_none, probe: true, note: "cbor_handle" }
         }
         2 => {
             let has_text = req.nth(2).int() != 0;
@@ -855,7 +896,7 @@ fn prepare_targeted(req: &Sx, dir: &str, cache: &mut Cache) -> Case {
             } else {
                 write_file(dir, "r.json", br#"{"@type":"TextResource","@id":"r","@include":"r.json"}"#);
             }
-            Case { load: Load::File(format!("{}/i.store.stam.json", dir), Config::default()), input_bytes: 200, report: report_none, probe: true, note: "resource_include" }
+            Case { load: Load::File(format!("{}/i.store.stam.json", dir), cfgd()), input_bytes: 200, report: report_none, probe: true, note: "resource_include" }
         }
         4 => {
             if req.nth(2).int() == 0 {
@@ -863,7 +904,7 @@ fn prepare_targeted(req: &Sx, dir: &str, cache: &mut Cache) -> Case {
             } else {
                 write_file(dir, "i.store.stam.json", br#"{"@type":"AnnotationStore","@id":"x","annotationsets":[{"@type":"AnnotationDataSet","@id":"s","@include":"-"}]}"#);
             }
-            Case { load: Load::File(format!("{}/i.store.stam.json", dir), Config::default()), input_bytes: 200, report: report_none, probe: true, note: "stdin_include" }
+            Case { load: Load::File(format!("{}/i.store.stam.json", dir), cfgd()), input_bytes: 200, report: report_none, probe: true, note: "stdin_include" }
         }
         _ => {
             let inc = req.nth(2).int();
@@ -876,7 +917,7 @@ fn prepare_targeted(req: &Sx, dir: &str, cache: &mut Cache) -> Case {
             for (i, f) in files.iter().enumerate() {
                 write_file(dir, &format!("f{}.json", i), format!(r#"{{"@type":"AnnotationDataSet","@id":"s"{},"keys":[{{"@type":"DataKey","@id":"k{}"}}]}}"#, incl(f.int()), i).as_bytes());
             }
-            Case { load: Load::File(format!("{}/i.store.stam.json", dir), Config::default()), input_bytes: 200 + 120 * files.len(), report: report_none, probe: true, note: "dataset_include" }
+            Case { load: Load::File(format!("{}/i.store.stam.json", dir), cfgd()), input_bytes: 200 + 120 * files.len(), report: report_none, probe: true, note: "dataset_include" }
         }
     }
 }
@@ -936,6 +977,8 @@ fn child_main(batch: &str) -> ! {
             Some(r) => r,
             None => continue,
         };
+        let (cfgk, req) = if req.nth(0).int() == 15 { (req.nth(1).int(), req.nth(2).clone()) } else { (0, req) };
+        CUR_CFG.store(cfgk, std::sync::atomic::Ordering::SeqCst);
         let case = prepare(&req, &dir, &mut cache);
         let _ = writeln!(outf, "B {}", idx);
         reset_peak();
@@ -947,19 +990,19 @@ fn child_main(batch: &str) -> ! {
             Load::JsonStr(s, cfg) => Some(AnnotationStore::from_str(s, cfg.clone())),
             Load::File(f, cfg) => Some(AnnotationStore::from_file(f, cfg.clone())),
             Load::Merge(first, second, cfg) => Some(AnnotationStore::from_str(first, cfg.clone()).and_then(|mut st| st.merge_json_str(second).map(|_| st))),
-            Load::AnnotateFile(doc, file) => Some(AnnotationStore::from_str(doc, Config::default()).and_then(|mut st| st.annotate_from_file(file).map(|_| ()).map(|_| st))),
-            Load::FileThen(first, op, second) => Some(AnnotationStore::from_file(first, Config::default()).and_then(|mut st| match op {
+            Load::AnnotateFile(doc, file) => Some(AnnotationStore::from_str(doc, cfgd()).and_then(|mut st| st.annotate_from_file(file).map(|_| ()).map(|_| st))),
+            Load::FileThen(first, op, second) => Some(AnnotationStore::from_file(first, cfgd()).and_then(|mut st| match op {
                 0 => st.with_file(second),
                 1 => st.merge_json_file(second).map(|_| st),
                 _ => st.merge_json_str(second).map(|_| st),
             })),
             Load::Scale(d1, d4) => {
                 let t0 = cpu_ms();
-                let r1 = AnnotationStore::from_str(d1, Config::default());
+                let r1 = AnnotationStore::from_str(d1, cfgd());
                 let t1 = cpu_ms();
                 drop(r1);
                 let t2 = cpu_ms();
-                let r4 = AnnotationStore::from_str(d4, Config::default());
+                let r4 = AnnotationStore::from_str(d4, cfgd());
                 let t3 = cpu_ms();
                 scale = Some((t1 - t0, t3 - t2));
                 Some(r4)
@@ -1147,7 +1190,7 @@ pub fn run_batch(reqs: &[Sx]) -> Vec<Obs> {
         if k >= reqs.len() {
             break;
         }
-        let probe_counts = !matches!(reqs[k].nth(0).int(), 6 | 12);
+        let probe_counts = !matches!(inner(&reqs[k]).nth(0).int(), 6 | 12);
         match obs[k].as_mut() {
             Some(o) => {
                 // the load was over: the lookups (or dropping the store) killed the process
@@ -1172,7 +1215,7 @@ pub fn run_batch(reqs: &[Sx]) -> Vec<Obs> {
 
 /// the observations of one request as the driver expects them
 fn outputs(req: &Sx, o: &Obs) -> Vec<Sx> {
-    match req.nth(0).int() {
+    match inner(req).nth(0).int() {
         1 | 2 | 7 | 8 | 9 | 11 | 13 => vec![l(vec![a(o.safety)]), if matches!(o.safety, 1 | 2 | 3) { l(vec![a(9)]) } else { o.result.clone() }],
         3 => vec![if o.safety == 1 { l(vec![a(-1)]) } else if o.safety == 2 { l(vec![a(-2)]) } else if o.safety != 0 { l(vec![a(-(o.safety))]) } else { o.result.clone() }],
         _ => vec![l(vec![a(o.safety)])],
@@ -1238,6 +1281,7 @@ fn is_temp(id: &str) -> bool {
 
 /// public identifiers (those that stay identifiers) are distinct within the request
 fn distinct_public(req: &Sx) -> bool {
+    let req = inner(req);
     let kind = req.nth(0).int();
     let strip = req.nth(1).int() != 0;
     let arrays = if kind == 1 { req.nth(3) } else { req.nth(2) };
@@ -1258,7 +1302,7 @@ fn distinct_public(req: &Sx) -> bool {
 }
 
 fn emit_children(out: &mut Out, reqs: Vec<(Sx, String)>, stats: &mut Stats) {
-    let reqs: Vec<(Sx, String)> = reqs.into_iter().filter(|(r, _)| !matches!(r.nth(0).int(), 1 | 2 | 9) || distinct_public(r)).collect();
+    let reqs: Vec<(Sx, String)> = reqs.into_iter().filter(|(r, _)| !matches!(inner(r).nth(0).int(), 1 | 2 | 9) || distinct_public(r)).collect();
     // several children in parallel
     let threads = 4usize;
     let chunk = ((reqs.len() + threads - 1) / threads).max(1);
@@ -1295,7 +1339,7 @@ fn emit_children(out: &mut Out, reqs: Vec<(Sx, String)>, stats: &mut Stats) {
                 _ => out.count("result_na"),
             }
             if o.probe_failed {
-                out.count(&format!("lookups_failed_kind{}", req.nth(0).int()));
+                out.count(&format!("lookups_failed_kind{}", inner(req).nth(0).int()));
             }
             stats.max_grow_kb = stats.max_grow_kb.max(o.grow_kb);
             stats.max_cpu_ms = stats.max_cpu_ms.max(o.cpu_ms);
@@ -1758,11 +1802,59 @@ pub fn generate(out: &mut Out, tier: &str, seed: u64) {
             }
         }
     }
+    // (15) the same requests under other configurations: every request of the abstract / targeted
+    // kinds under one other Config (all variants in turn), a tenth of the generic mutation streams
+    // (malformed documents included) with milestones switched off or at every position
+    {
+        let mut wrapped: Vec<(Sx, String)> = Vec::new();
+        let mut turn = 0i64;
+        for (r, _) in reqs.iter() {
+            let kind = r.nth(0).int();
+            let heavy = kind == 8 || (matches!(kind, 1 | 2) && r.to_string().contains("57 57 57 57")) || r.to_string().contains("49 48 48 48 48 48 48") || r.to_string().contains("49 53 48 48 48 48 48");
+            if heavy {
+                continue;
+            }
+            match kind {
+                1 | 2 | 3 | 7 | 9 | 10 | 11 | 13 | 14 => {
+                    if thorough || turn % 3 == 0 {
+                        let k = 1 + (turn / 3) % (NCFG - 1);
+                        wrapped.push((l(vec![a(15), a(k), r.clone()]), format!("config_{}", k)));
+                    }
+                    turn += 1;
+                }
+                4 | 5 | 6 | 12 => {
+                    if turn % (if thorough { 3 } else { 10 }) == 0 {
+                        let k = *rng.pick(&[1i64, 1, 2, 8, 6, 3]);
+                        wrapped.push((l(vec![a(15), a(k), r.clone()]), format!("config_{}", k)));
+                    }
+                    turn += 1;
+                }
+                _ => {}
+            }
+        }
+        // every configuration on a well-formed document of each format and on the corpus shapes
+        for k in 0..NCFG {
+            for r in [
+                l(vec![a(4), a(1), a(7), a(0), a(1)]),
+                l(vec![a(4), a(1), a(6), a(100000), a(0)]),
+                l(vec![a(5), a(1), a(0), a(0), a(100000), a(0)]),
+                l(vec![a(6), a(1), a(0), a(100000)]),
+                l(vec![a(7), a(2), a(1)]),
+                l(vec![a(11), a(0), a(5), a(0), a(5)]),
+                l(vec![a(11), a(2), a(5), a(0), a(5)]),
+                l(vec![a(11), a(1), a(6), a(0), a(2)]),
+                l(vec![a(10), a(99)]),
+            ] {
+                wrapped.push((l(vec![a(15), a(k), r]), "config_wellformed".into()));
+            }
+        }
+        reqs.extend(wrapped);
+    }
     emit_children(out, reqs, &mut stats);
     out.count_n("max_memory_growth_kb_measured", stats.max_grow_kb);
     out.count_n("max_cpu_ms_measured", stats.max_cpu_ms);
 }
 
-pub const RULE: &str = "String parsers in process: every string of length <=4 (thorough 5) over {+,-,0,1,9,x,space} and boundary values around 2^63/2^64 for Cursor, every keyword of Type/SelectorKind/DataFormat in case/letter variants (incl. U+212A, U+0130), every string of length <=3 (thorough 4) over {!,A,R,U+C9,U+FF21,U+1D400,a,0,1,9,+,-} through every id lookup. Documents in child processes (ulimit -v 2 GiB, stdin closed, hang = 60 s without progress; memory budget 48 MiB + input/4, cpu budget 1.5 s + 4 us/byte, both measured): annotations/data arrays of <=3 items over 10 identifier shapes x buildable or not x one or two arrays x strip_temp_ids on/off x empty or non-empty store, identifiers with numbers up to 2^64, composite targets over all pairs (thorough triples) of sub-selector kinds, random longer documents; CSV rows: every simple selector kind x reference/offset/key column shapes, complex rows over all pairs of sub-selector kinds with full, missing, short and empty columns, random rows; @include chains and cycles, \"-\" as include, self-referring manifests and other odd file references; the same arrays through merge_json_str; cpu time of n against 4n annotations with inline data (with/without ids, one key/one key each); CBOR nesting depth and out-of-range handles; one data set defined twice (second definition identical / permuted / subset / superset / disjoint, through sub-stores, with_file, merge_json_str, merge_json_file, two set objects in one merged file); with_file of a CSV store; an AnnotationSelector with offset on annotations of all ten target kinds x 8 offsets in JSON, annotate_from_file and CSV; every length header (string/array/map) of the CBOR files rewritten in 20 ways (huge values, 1/2/4/8-byte forms, indefinite, +-1, 0); generic mutations of library-written JSON (delete/duplicate/swap every node, retype, dangling/cyclic/temporary references, extreme integers, truncation, bit flips), CSV (truncation, bit flips, cell replacement in every file) and CBOR (truncation at every (quick: third) byte, bit flips). Non-trivial: the document loads and the lookups run. distinct = distinct request lines.";
+pub const RULE: &str = "String parsers in process: every string of length <=4 (thorough 5) over {+,-,0,1,9,x,space} and boundary values around 2^63/2^64 for Cursor, every keyword of Type/SelectorKind/DataFormat in case/letter variants (incl. U+212A, U+0130), every string of length <=3 (thorough 4) over {!,A,R,U+C9,U+FF21,U+1D400,a,0,1,9,+,-} through every id lookup. Documents in child processes (ulimit -v 2 GiB, stdin closed, hang = 60 s without progress; memory budget 48 MiB + input/4, cpu budget 1.5 s + 4 us/byte, both measured): annotations/data arrays of <=3 items over 10 identifier shapes x buildable or not x one or two arrays x strip_temp_ids on/off x empty or non-empty store, identifiers with numbers up to 2^64, composite targets over all pairs (thorough triples) of sub-selector kinds, random longer documents; CSV rows: every simple selector kind x reference/offset/key column shapes, complex rows over all pairs of sub-selector kinds with full, missing, short and empty columns, random rows; @include chains and cycles, \"-\" as include, self-referring manifests and other odd file references; the same arrays through merge_json_str; cpu time of n against 4n annotations with inline data (with/without ids, one key/one key each); CBOR nesting depth and out-of-range handles; one data set defined twice (second definition identical / permuted / subset / superset / disjoint, through sub-stores, with_file, merge_json_str, merge_json_file, two set objects in one merged file); with_file of a CSV store; an AnnotationSelector with offset on annotations of all ten target kinds x 8 offsets in JSON, annotate_from_file and CSV; every length header (string/array/map) of the CBOR files rewritten in 20 ways (huge values, 1/2/4/8-byte forms, indefinite, +-1, 0); generic mutations of library-written JSON (delete/duplicate/swap every node, retype, dangling/cyclic/temporary references, extreme integers, truncation, bit flips), CSV (truncation, bit flips, cell replacement in every file) and CBOR (truncation at every (quick: third) byte, bit flips). A third (thorough: all) of the abstract and targeted requests and a tenth (thorough: a third) of the generic mutation requests are repeated under another Config (milestone_interval 0, 1, 2; shrink_to_fit off; generate_ids on; all reverse indices off; use_include off; all of these together), every Config on well-formed documents of each format: the prediction is that of the request under the default Config. Non-trivial: the document loads and the lookups run. distinct = distinct request lines.";
 
 pub const EXHAUSTIVE: bool = true;
